@@ -62,7 +62,7 @@ func genZone(t *rapid.T, ip net.IP, label string) string {
 	if ip.To4() != nil {
 		return ""
 	}
-	return rapid.SampledFrom([]string{"", "", "eth0", "eth1", "1", "lo"}).Draw(t, label)
+	return rapid.SampledFrom([]string{"", "", "eth0", "eth1", "1", "lo", "eth0.100", "bond0.12", "br-lan_2"}).Draw(t, label) // interface names may carry a VLAN suffix
 }
 
 func extract(t *rapid.T, variable string, req *http.Request) (string, int64, error) {
@@ -145,7 +145,7 @@ func TestC19_ClientIP(t *testing.T) {
 		case "otherzone": // same IP, different zone (only meaningful for IPv6)
 			ip2 = ip1
 			if ip1.To4() == nil {
-				z2 = rapid.SampledFrom([]string{"eth0", "eth1", "2", ""}).Draw(t, "z2o")
+				z2 = rapid.SampledFrom([]string{"eth0", "eth1", "2", "", "eth0.100", "eth0.200"}).Draw(t, "z2o")
 			}
 		case "text-prefix": // the first address, as text, is a proper prefix of the second (10.0.0.1 / 10.0.0.12)
 			b := rapid.SliceOfN(rapid.Byte(), 3, 3).Draw(t, "tp")
